@@ -62,7 +62,7 @@ class Contract:
     def __init__(self, key, prop, types=None, returns=None, requires=(), ensures=(), ensures_exc=(),
                  raises=None, modifies=(), effects=(), loops=None, locals=None, inline=False, funcs=None,
                  ghost=None, mode="prove", unroll=None, comps=None, name=None, setup=(), max_paths=None,
-                 frame=None, lock=None, replay=None, timeout_ms=None, axioms=(), post_setup=(), pure_result=None, asserts=None, nonlinear=False,
+                 frame=None, lock=None, replay=None, timeout_ms=None, axioms=(), post_setup=(), pure_result=None, asserts=None, nonlinear=False, unreachable_ok=(),
                  strict_comps=False, feas_timeout_ms=None):
         self.key = key
         self.feas_timeout_ms = feas_timeout_ms   # budget of one branch-feasibility pre-check (default 400 ms; unknown = feasible)
@@ -95,6 +95,7 @@ class Contract:
         self.post_setup = list(post_setup)
         self.asserts = dict(asserts or {})
         self.nonlinear = nonlinear
+        self.unreachable_ok = list(unreachable_ok)
         self.pure_result = pure_result
         if pure_result is not None:
             self.ensures.append(("pure-result", "result == (%s)" % pure_result))
@@ -121,6 +122,7 @@ class Registry:
         self.ufs = {}
         self.ghostfuns = {}
         self.opaques = {}
+        self.fclauses = []
         self.assumed = []          # contracts used at call sites but not verified (dependencies)
 
     # --- declaration API used by /verif/contracts/*.py
@@ -219,6 +221,12 @@ class Registry:
 
     def lemma(self, name, prop, builder):
         self.lemmas.append((name, prop, builder))
+
+    def fclause(self, prop, name, kind, key, **kw):
+        """Engine F clause (see pyvc/effects.py)"""
+        d = dict(kw)
+        d.update({"prop": prop if isinstance(prop, (list, tuple)) else [prop], "name": name, "kind": kind, "key": key})
+        self.fclauses.append(d)
 
     def uf(self, name, argtypes, rettype):
         """uninterpreted (ghost) spec function; its defining axioms are given per contract (`axioms=`)"""
@@ -635,6 +643,35 @@ class Verifier:
             return VModule(modname, None)
         return external_member(self, modname, attr)
 
+    def ghost_written_names(self):
+        """names of ghost variables that some effect statement of a registered contract may write"""
+        if getattr(self, "_gwn", None) is not None:
+            return self._gwn
+        from .modset import body_mods, _root
+        stmts = []
+        for c in list(self.reg.contracts.values()) + list(self.reg.variants) + list(self.reg.assumed):
+            stmts += list(c.effects)
+            for fc in c.funcs.values():
+                stmts += list(getattr(fc, "effects", [])) + list(getattr(fc, "effects_before", [])) + list(getattr(fc, "effects_exc", []))
+        for t in self.types.named.values():
+            fc = getattr(t, "fc", None)
+            if fc is not None:
+                stmts += list(fc.effects) + list(fc.effects_before) + list(fc.effects_exc)
+        out = set()
+        for st in stmts:
+            try:
+                body = ast.parse(st.strip()).body
+            except SyntaxError:
+                continue
+            names, paths, _ = body_mods(body)
+            out.update(names)
+            for p in paths:
+                r = _root(p)
+                if r:
+                    out.add(r)
+        self._gwn = out
+        return out
+
     # ---------------------------------------------------------------- contracts lookup
     def contract_for_call(self, f, I):
         q = getattr(f, "qual", None)
@@ -776,6 +813,32 @@ class Verifier:
             self.feas_timeout_ms = saved_feas
         if self.exits == 0 and not self.errors:
             self.errors.append("vacuous: no path reaches a function exit (contradictory requires?)")
+        # reachability guard against vacuous proofs: every statement of the function must be executed on some path
+        if not self.errors and not self.aborted and not self.failed_names:
+            want = set()
+            ok_src = [x for x in c.unreachable_ok if isinstance(x, str)]
+
+            def collect(stmts):
+                for st in stmts:
+                    if isinstance(st, (ast.FunctionDef, ast.AsyncFunctionDef, ast.ClassDef)):
+                        want.add(st.lineno)
+                        continue
+                    if isinstance(st, ast.Expr) and isinstance(st.value, ast.Constant):
+                        continue
+                    src = ast.unparse(st)
+                    if any(src.startswith(o) for o in ok_src):
+                        continue
+                    want.add(st.lineno)
+                    for f in ("body", "orelse", "finalbody"):
+                        collect(getattr(st, f, []) or [])
+                    for h in getattr(st, "handlers", []) or []:
+                        collect(h.body)
+            collect(node.body)
+            missing = sorted(want - self.covered - set(x for x in c.unreachable_ok if isinstance(x, int)))
+            if missing:
+                self.errors.append("vacuity guard: statements at lines %s of %s are never reached on any explored path "
+                                   "(contradictory assumptions / too strong precondition?); list them in unreachable_ok "
+                                   "with a reason if intended" % (missing, c.key))
         return {
             "key": c.key, "short": c.short, "prop": c.prop, "mode": c.mode,
             "source_sha": frontend.source_hash(mod, node),
